@@ -17,3 +17,9 @@ package config
 //@   trusted
 //@   pure
 //@   ensures [function_of_workspace_root] r == wsCachePrefix(workspaceDir)
+
+// C10/C07: everything grog keeps per workspace (lock file, local cache) lives under one directory that is a function of the
+// configured root and of the workspace root path only.
+//@ func (WorkspaceConfig).GetWorkspaceRootDir(w) (r)
+//@   pure
+//@   ensures [function_of_root_and_workspace] r == pathJoin(w.Root, wsCachePrefix(Global.WorkspaceRoot))
